@@ -821,11 +821,26 @@ pub fn validate_abnf(abnf: &str, target: &str) -> Result<(), String> {
     let pairs = pest_meta::parser::parse(pest_meta::parser::Rule::grammar_rules, &pest)
       .map_err(|e| e.to_string())?;
 
-    let ast = pest_meta::parser::consume_rules(pairs).unwrap();
+    // errors of the grammar are errors of the schema, not bugs: undefined, reserved
+    // or duplicate rule names, then left recursion, repetition counts, ...
+    let to_msg = |errors: Vec<pest::error::Error<pest_meta::parser::Rule>>| {
+      errors
+        .iter()
+        .map(|e| e.to_string())
+        .collect::<Vec<_>>()
+        .join("; ")
+    };
+    pest_meta::validator::validate_pairs(pairs.clone()).map_err(to_msg)?;
+    let ast = pest_meta::parser::consume_rules(pairs).map_err(to_msg)?;
+
+    // pest_vm panics when asked for a rule the grammar does not define
+    let rule = rule.replace('-', "_");
+    if !ast.iter().any(|r| r.name == rule) {
+      return Err(format!("ABNF rule {} is not defined", rule));
+    }
 
     let vm = pest_vm::Vm::new(pest_meta::optimizer::optimize(ast));
 
-    let rule = rule.replace('-', "_");
     let _ = vm.parse(&rule, target).map_err(|e| e.to_string())?;
   }
 
